@@ -4,3 +4,5 @@ import Qv.Model.Values
 import Qv.Model.Expr
 import Qv.Model.Sat
 import Qv.Model.Extrema
+import Qv.Model.BoolArith
+import Qv.Model.Pcbo
